@@ -87,7 +87,7 @@ class Code3(Code2):
         return
 
     def encode_lineno_tab(self):
-        co_lnotab = b""
+        co_lnotab = bytearray()
 
         prev_line_number = self.co_firstlineno
         prev_offset = 0
@@ -96,17 +96,24 @@ class Code3(Code2):
             line_diff = line_number - prev_line_number
             prev_offset = offset
             prev_line_number = line_number
-            while offset_diff >= 256:
+            # Advance the address first: a line increment applies at
+            # the address reached so far.
+            while offset_diff > 255:
                 co_lnotab += bytearray([255, 0])
                 offset_diff -= 255
-            while line_diff >= 256:
-                co_lnotab += bytearray([0, 255])
-                line_diff -= 255
-            if 0 <= line_diff <= 256:
-                # FIXME: should warn about dropping off a line number
-                co_lnotab += bytearray([offset_diff, line_diff])
+            # Line increments are signed bytes (from 3.6 on); larger
+            # steps continue in entries with a zero address increment.
+            while line_diff > 127:
+                co_lnotab += bytearray([offset_diff, 127])
+                offset_diff = 0
+                line_diff -= 127
+            while line_diff < -128:
+                co_lnotab += bytearray([offset_diff, 0x80])
+                offset_diff = 0
+                line_diff += 128
+            co_lnotab += bytearray([offset_diff, line_diff & 0xFF])
 
-        self.co_lnotab = co_lnotab
+        self.co_lnotab = bytes(co_lnotab)
 
     def freeze(self):
         for field in "co_consts co_names co_varnames co_freevars co_cellvars".split():
